@@ -258,7 +258,25 @@ func (e *e1) checkMultivariant() {
 	abA, hasAB := m3u8x.Get(v.Attrs, "AVERAGE-BANDWIDTH")
 	bw, _ := strconv.ParseInt(bwA.Val, 10, 64)
 	ab, _ := strconv.ParseInt(abA.Val, 10, 64)
-	if !hasAB || ab <= 0 || bw < ab {
+	// degenerate window: every listed segment of the first stream has zero duration (two random
+	// access units with the same DTS and changed parameters): no bit rate is defined
+	allZero := true
+	if h0 := e.hist[cfg.Streams()[0]]; h0.lastX != nil {
+		for k, sg := range h0.lastX.Segments {
+			if sg.Gap {
+				continue
+			}
+			if ms := model.SegByID(uint64(*h0.lastX.MediaSeq + int64(k))); ms == nil || ms.EndTicks > ms.StartTicks {
+				allZero = false
+			}
+		}
+	} else {
+		allZero = false
+	}
+	if allZero {
+		res.Labels["zero-duration-window"] = true
+	}
+	if !allZero && (!hasAB || ab <= 0 || bw < ab) {
 		bad("C16", "BANDWIDTH=%s AVERAGE-BANDWIDTH=%s: need BANDWIDTH >= AVERAGE-BANDWIDTH > 0", bwA.Val, abA.Val)
 		return
 	}
@@ -267,6 +285,7 @@ func (e *e1) checkMultivariant() {
 		if h.lastX != nil {
 			var maxBW float64
 			var sizes, durs float64
+			minDur := math.MaxFloat64
 			okAll := true
 			for k, sg := range h.lastX.Segments {
 				if sg.Gap {
@@ -285,6 +304,9 @@ func (e *e1) checkMultivariant() {
 					okAll = false
 					break
 				}
+				if dur < minDur {
+					minDur = dur
+				}
 				sz := float64(len(f.body))
 				if bwk := 8 * sz / dur; bwk > maxBW {
 					maxBW = bwk
@@ -294,7 +316,9 @@ func (e *e1) checkMultivariant() {
 			}
 			if okAll && durs > 0 {
 				avg := 8 * sizes / durs
-				if math.Abs(float64(bw)-maxBW) > 1+maxBW*1e-6 || math.Abs(float64(ab)-avg) > 1+avg*1e-6 {
+				// durations are known to the muxer to the nanosecond: allow 2 ns on the shortest segment
+				rel := 1e-6 + 2e-9/minDur
+				if math.Abs(float64(bw)-maxBW) > 1+maxBW*rel || math.Abs(float64(ab)-avg) > 1+avg*rel {
 					bad("C16", "BANDWIDTH=%d AVERAGE-BANDWIDTH=%d, the listed segments give peak %.1f and mean %.1f", bw, ab, maxBW, avg)
 					return
 				}
